@@ -41,6 +41,10 @@ func baseShapes() []baseShape {
 		{"notch-hole", poly(notch, pp(1, 1, 2, 1, 2, 2, 1, 2))},
 		{"square-collinear-vertices", poly(pp(0, 0, 3, 0, 6, 0, 6, 3, 6, 6, 3, 6, 0, 6, 0, 3))},
 		{"diamond", poly(pp(3, 0, 6, 3, 3, 6, 0, 3))},
+		// two dents in the left side: the vertical x=3 runs from the middle of the upper dent's ceiling through a
+		// shallow cavity and then through the two ring vertices (3,4) and (3,1) - several contacts on one probe
+		// segment, the first of them nearer to the start than the middle of the whole run
+		{"two-dents", poly(pp(0, 0, 6, 0, 6, 6, 0, 6, 0, 5, 4, 5, 3, 4, 0, 4, 0, 2, 3, 1))},
 		{"square-two-holes", poly(sq, pp(1, 1, 2, 1, 2, 2, 1, 2), pp(3, 3, 5, 3, 5, 5, 3, 5))},
 		{"zigzag-line", exact.Shape{K: exact.KLine, Line: pp(0, 0, 3, 3, 6, 0, 6, 6, 3, 3)}},
 		{"straight-line", exact.Shape{K: exact.KLine, Line: pp(0, 3, 2, 3, 4, 3, 6, 3)}},
@@ -144,7 +148,7 @@ func enumPairs(tier string, yield func(pairCase) bool) {
 		variants := []exact.Shape{bs.s}
 		swap := func(p exact.P) exact.P { return exact.P{X: p.Y, Y: p.X} }
 		switch bs.name {
-		case "L", "U", "comb", "notch", "notch-hole", "zigzag-line", "straight-line", "flat-rect":
+		case "L", "U", "comb", "notch", "notch-hole", "two-dents", "zigzag-line", "straight-line", "flat-rect":
 			// the same shape with x and y exchanged: dents on vertical sides, vertical collinear runs
 			variants = append(variants, mapShape(bs.s, swap))
 		}
@@ -292,4 +296,4 @@ func enumPairs(tier string, yield func(pairCase) bool) {
 	}
 }
 
-const enumPairsSpace = "17 base shapes, the concave ones also with x and y exchanged (convex, L, U, comb, notch, star, with 1-2 holes, collinear vertices, lines, rects) on the even 7x7 lattice x every point, every 2-point line and every rect of the 13x13 half-lattice and every triangle of a sub-lattice (thorough: a second encoding of each base, all triangles of the even lattice, all 3-point polylines), every boundary-to-boundary segment under every rotation of the exterior ring; for bases with holes every even-lattice rect as a 16-vertex ring and line; index none / R-tree / quadtree rotating"
+const enumPairsSpace = "18 base shapes, the concave ones also with x and y exchanged (convex, L, U, comb, notch, two dents, star, with 1-2 holes, collinear vertices, lines, rects) on the even 7x7 lattice x every point, every 2-point line and every rect of the 13x13 half-lattice and every triangle of a sub-lattice (thorough: a second encoding of each base, all triangles of the even lattice, all 3-point polylines), every boundary-to-boundary segment under every rotation of the exterior ring; for bases with holes every even-lattice rect as a 16-vertex ring and line; index none / R-tree / quadtree rotating"
